@@ -1,5 +1,7 @@
 package main
 
+import "math/big"
+
 // verifyModel is the ideal-signature meaning of ed25519.Verify for a 32-byte key and 64-byte signature:
 // pk is a public key (pk = PUB(INV(pk))) and sig is THE signature of msg under its secret.
 func (ex *Exec) verifyModel(pk, msg, sig Slice) Value {
@@ -24,3 +26,7 @@ func (ex *Exec) encTerm(vars []Value) *Term {
 	}
 	return ex.ts.Concat(parts...)
 }
+
+type bigIntT = big.Int
+
+func bigInt(v int64) *big.Int { return big.NewInt(v) }
